@@ -201,6 +201,12 @@ func (c31NoClients) Provide(host string) blobclient.Client { return blobclient.N
 
 // ---------------------------------------------------------------- one case
 
+// an upload made request by request, so that another commit of the same blob can land between them
+type c31Manual struct {
+	uid     string
+	patched bool
+}
+
 type c31Async struct {
 	done chan string // result of the request
 	gate *verifretry.Gate
@@ -223,6 +229,7 @@ type c31Sess struct {
 	client *blobclient.HTTPClient
 
 	uploads map[string]*c31Async // paused uploads by key
+	manual  map[string]*c31Manual // uploads driven request by request (start / patch / commit)
 	fc      *c31Async            // paused forced cleanup
 	started map[string]bool      // executions waiting at the gate
 	expect  int                  // starts the harness still has to see
@@ -282,6 +289,7 @@ func (s *c31Sess) open() error {
 	s.client = blobclient.New(s.addr, blobclient.WithChunkSize(16))
 	s.cas, s.db, s.inner = cas, db, inner
 	s.uploads, s.fc, s.started, s.expect = map[string]*c31Async{}, nil, map[string]bool{}, 0
+	s.manual = map[string]*c31Manual{}
 	s.rec.Drain()
 	return nil
 }
@@ -544,6 +552,73 @@ func (s *c31Sess) do(op []string) []string {
 		s.fc = nil
 		f.gate.Release()
 		return strings.Fields(s.wait(f.done))
+	case (op[1] == "ubegin" || op[1] == "upatch" || op[1] == "ucommit" || op[1] == "dcommit") && len(op) == 3:
+		b, ns, ok := c31ParseKey(op[2])
+		if !ok {
+			return nil
+		}
+		blob := c31BlobTab[b]
+		base := fmt.Sprintf("http://%s/namespace/ns%d/blobs/%s/uploads", s.addr, ns, blob.digest)
+		// 200 -> ok, 409 -> conflict (clients treat it as success), anything else -> err
+		class := func(err error) string {
+			if err == nil {
+				return "ok"
+			}
+			if httputil.IsConflict(err) {
+				return "conflict"
+			}
+			return "err"
+		}
+		m := s.manual[op[2]]
+		var res string
+		switch op[1] {
+		case "ubegin":
+			if m != nil {
+				return []string{"busy"}
+			}
+			if _, busy := s.uploads[op[2]]; busy {
+				return []string{"busy"}
+			}
+			r, err := httputil.Post(fmt.Sprintf("%s?size=%d", base, len(blob.content)))
+			res = class(err)
+			if err == nil {
+				s.manual[op[2]] = &c31Manual{uid: r.Header.Get("Location")}
+				res = "started"
+			}
+		case "upatch":
+			if m == nil {
+				return []string{"none"}
+			}
+			_, err := httputil.Patch(base+"/"+m.uid, httputil.SendBody(bytes.NewReader(blob.content)),
+				httputil.SendHeaders(map[string]string{"Content-Range": fmt.Sprintf("0-%d", len(blob.content))}))
+			res = class(err)
+			if err == nil {
+				m.patched = true
+				res = "patched"
+			} else {
+				delete(s.manual, op[2])
+			}
+		case "ucommit":
+			if m == nil || !m.patched {
+				return []string{"none"}
+			}
+			delete(s.manual, op[2])
+			_, err := httputil.Put(base+"/"+m.uid, httputil.SendTimeout(time.Minute))
+			res = class(err)
+		case "dcommit":
+			// the commit a neighbouring origin sends when it duplicates an upload (write-back delayed)
+			if m == nil || !m.patched {
+				return []string{"none"}
+			}
+			delete(s.manual, op[2])
+			body, _ := json.Marshal(blobclient.DuplicateCommitUploadRequest{Delay: time.Hour})
+			_, err := httputil.Put(fmt.Sprintf("http://%s/internal/duplicate/namespace/ns%d/blobs/%s/uploads/%s", s.addr, ns, blob.digest, m.uid),
+				httputil.SendBody(bytes.NewReader(body)), httputil.SendTimeout(time.Minute))
+			res = class(err)
+		}
+		s.noteAdds()
+		s.settle()
+		return []string{res}
 	case op[1] == "fetch" && len(op) == 3:
 		// the blob reaches this origin's cache without an upload commit: internal transfer from
 		// another origin (the same happens on a download from the backend) — no flag, no task
@@ -566,6 +641,10 @@ func (s *c31Sess) do(op []string) []string {
 		}
 		return []string{"ok"}
 	case op[1] == "poll" && len(op) == 2:
+		// time passes: delayed (duplicate) write-back tasks become ready
+		if _, err := s.hdb.Exec("UPDATE writeback_task SET created_at = datetime(created_at, '-2 hours')"); err != nil {
+			return []string{"err"}
+		}
 		persistedretry.VerifPollOnce(s.inner)
 		s.noteAdds()
 		s.settle()
@@ -750,6 +829,12 @@ func c31Alphabet(keys []string, blobs []string) [][]string {
 	for _, k := range keys {
 		ops = append(ops, []string{"op", "upload", k}, []string{"op", "uploadb", k}, []string{"op", "uploade", k}, []string{"op", "exec", k})
 	}
+	if len(keys) > 1 {
+		// request-by-request uploads: conflicts at the patch and commit sites, duplicate commits
+		for _, k := range keys {
+			ops = append(ops, []string{"op", "ubegin", k}, []string{"op", "upatch", k}, []string{"op", "ucommit", k}, []string{"op", "dcommit", k})
+		}
+	}
 	for _, b := range blobs {
 		ops = append(ops, []string{"op", "fcb", b}, []string{"op", "del", b}, []string{"op", "fetch", b})
 	}
@@ -824,6 +909,23 @@ func TestVerif_C31(t *testing.T) {
 			}
 		}
 	}
+	// … an upload started (and patched) request by request, then anything, then its commit: the blob can
+	// appear between start and patch / commit (conflict at the patch site, at the commit site)
+	for _, pre := range [][][]string{
+		{{"op", "ubegin", "k0"}},
+		{{"op", "ubegin", "k0"}, {"op", "upatch", "k0"}},
+	} {
+		for _, a := range alpha2 {
+			for _, fin := range [][]string{{"op", "upatch", "k0"}, {"op", "ucommit", "k0"}, {"op", "dcommit", "k0"}} {
+				ops := append(append([][]string{}, pre...), a, fin)
+				if fin[1] == "upatch" {
+					ops = append(ops, []string{"op", "ucommit", "k0"})
+				}
+				c31Run(base, tr, verifh.Case{Ops: ops})
+				tr.Count("prefixed_exhaustive_cases", 1)
+			}
+		}
+	}
 	// (b) random histories over 2 blobs x 2 namespaces
 	r := verifh.NewRand(verifh.Seed(), "c31")
 	keys := []string{"k0", "k1", "k2", "k3"}
@@ -834,8 +936,10 @@ func TestVerif_C31(t *testing.T) {
 			b := "b" + strconv.Itoa(r.Intn(2))
 			var o []string
 			switch x := r.Intn(100); {
-			case x < 26:
+			case x < 18:
 				o = []string{"op", "upload", k}
+			case x < 26:
+				o = []string{"op", r.Pick("ubegin", "upatch", "upatch", "ucommit", "ucommit", "dcommit"), k}
 			case x < 34:
 				o = []string{"op", "uploadb", k}
 			case x < 42:
